@@ -539,7 +539,9 @@ def r10_option_filter(text, count=None):
         if "|" in mask(body).replace("||", ""):
             raise Undecided("R10f: nested closure in filter body")
         p = mm.group(2)
-        if not mm.group(1):
+        if p == "_":
+            p = "vx_f"      # `|_| B`: the payload is not looked at
+        elif not mm.group(1):
             body = re.sub(r"\*\s*%s\b" % re.escape(p), p, body)   # |p| *p > 0  ->  p > 0
         s0 = _receiver_start(m, mm.start())
         recv = text[s0:mm.start()]
